@@ -81,7 +81,8 @@ class Acc(object):
             key = vclass(v)
             self.viol_classes[key] = self.viol_classes.get(key, 0) + 1
             sg = v.get('sig') or {}
-            vk = '%s|%s|%s|%s' % (key, sg.get('cls', ''), sg.get('pair', ''), sg.get('mode', ''))
+            vk = '%s|%s' % (key, '|'.join('%s=%s' % (k, sg[k]) for k in sorted(sg)
+                                          if k in ('cls', 'pair', 'mode', 'problem', 'nnps', 'kind', 'reorder', 'family', 'method')))
             self.viol_strata[vk] = self.viol_strata.get(vk, 0) + 1
             if len(self.violations) < 400:
                 self.violations.append((index, seed, scenario, v))
@@ -728,7 +729,9 @@ def digest_log(engine, prop, tier, master, n, path):
     """sequentially run indices 0..n-1 and write one line per run; used by the
     determinism self-test (two fresh interpreters must write identical files)."""
     engine.prepare(prop, tier)
-    with open(path, 'w') as f:
+    f0 = open(path, 'w')
+    _quiet()
+    with f0 as f:
         for i in range(n):
             seed = derive_seed(master, prop, i)
             sc = engine.gen(Tape(seed), prop, tier)
